@@ -56,6 +56,14 @@ func (fr *Frame) paramSVs() map[string]SV {
 		m[p.Name()] = sv
 		m[fmt.Sprintf("arg%d", i)] = sv
 	}
+	// names pinned by the contract's `params` clause (positional), as in verifyTop
+	if fr.fn == fr.run.top && fr.run.contract != nil {
+		for i, p := range fr.fn.Params {
+			if i < len(fr.run.contract.Params) {
+				m[fr.run.contract.Params[i]] = fr.argSV(fr.vals[p], p.Type())
+			}
+		}
+	}
 	for _, fv := range fr.fn.FreeVars {
 		// free variables are pointers to the captured cells: name denotes the cell's content
 		v := fr.vals[fv]
